@@ -214,7 +214,11 @@ func TestReplay(t *testing.T) {
 	x, v := replayOps(world(t), spec, rf.Ops)
 	if os.Getenv("VERIF_VERBOSE") != "" {
 		for i, op := range x.Log {
-			fmt.Printf("  %3d %s -> %s %s%s\n", i, op, x.Ress[i].Class(), x.Ress[i].Err, x.Ress[i].Panic)
+			if i < len(x.Ress) {
+				fmt.Printf("  %3d %s -> %s %s%s\n", i, op, x.Ress[i].Class(), x.Ress[i].Err, x.Ress[i].Panic)
+			} else {
+				fmt.Printf("  %3d %s -> (violation raised while executing)\n", i, op)
+			}
 		}
 	}
 	for k, n := range x.Known {
